@@ -330,6 +330,10 @@ class BuiltinMixin:
                 for x in src.items:
                     self.dict_store(fr, out, x, True)
             return out
+        if name == "uf_bool":
+            zs = [zval(a) for a in args[1:]]
+            f = z3.Function("ufb_" + str(args[0]), *[z.sort() for z in zs], z3.BoolSort())
+            return f(*zs)
         if name == "uf_int":
             zs = [zval(a) for a in args[1:]]
             f = z3.Function("ufi_" + str(args[0]), *[z.sort() for z in zs], z3.IntSort())
